@@ -242,6 +242,9 @@ def profile_with_ties_to_strict_profile(
         if tie_breaker == "first":
           tied_indices = np.sort(tied_indices)
         strict_profile[i, tied_indices] = np.arange(r + 1, r + num_tied + 1)
+      elif not np.isnan(profile[i, ranked_profile[i, r]]):
+        # An untied alternative takes the next free rank as well: the input may number the ranks after a tie group densely (1, 1, 2).
+        strict_profile[i, ranked_profile[i, r]] = r + 1
 
       r += num_tied
   if isinstance(profile, CompleteProfile):
